@@ -182,7 +182,7 @@ func (w *world) logicalOf(e *ent, b []byte) ([]byte, bool) {
 		tk, _ := rr.VerifBitDecodeMetaKey(e.K)
 		n, err := db.BitCountV2(tk, 0, -1)
 		b = appErr(appInt(b, n), err)
-		for _, off := range []int64{0, 1, 5, 7, 8, 8191, 8192, 8192 * 3} {
+		for _, off := range []int64{5, 8192 * 3} {
 			bit, gerr := db.BitGetV2(tk, off)
 			b = appErr(appInt(b, bit), gerr)
 		}
